@@ -215,5 +215,5 @@ SPEC("pane.converters", "DictConverter.collect_errors",
                ["C07"], "tree-keys")],
      no_raise=["C04"],
      invariants={0: lambda it, nodes, self, val:
-                 forall_val(lambda k: not mhas(nodes, k)) ==
-                 forall(range(it), lambda j: acc(self.k_conv, key_at(val, j)) and acc(self.v_conv, mget(val, key_at(val, j))))})
+                 forall_val(lambda k: mhas(nodes, k) ==
+                            (mhas(val, k) and idx_of(val, k) < it and not (acc(self.k_conv, k) and acc(self.v_conv, mget(val, k)))))})
